@@ -302,7 +302,20 @@ def i7(x: int, y: int) -> int:
 ]
 
 
-def corpus(kind: str) -> list[str]:
+# programs inside known findings (probed separately): region tag -> programs
+C19_REGIONS = {
+    "whole-row-store": ["""
+def w0(x: int, y: int) -> int:
+    m = array(array(1, 2, 3), array(4, 5, 6))
+    m[x % 2] = array(7, 8, y)
+    return m[0][0] + m[0][2] * 10 + m[1][0] * 100 + m[1][2] * 1000
+"""],
+}
+
+
+def corpus(kind: str, region: str | None = None) -> list[str]:
+    if region:
+        return list(C19_REGIONS.get(region, [])) if kind == "c19" else []
     return list(C07_FIXED if kind == "c07" else C19_FIXED)
 
 
